@@ -44,7 +44,10 @@ def rand_san(rng, expect, realm):
     if k < 0.45:
         return "uri:" + hx(rng.choice([b"https://", b"radsec://", b""]) + variants(rng, rng.choice(expect)))
     if k < 0.55:
-        return "ip:" + hx(rng.choice([bytes([192, 0, 2, 7]), bytes([192, 0, 2, 8]), bytes(16), bytes([192, 0, 2]), b"", bytes([0x20, 1, 0xd, 0xb8] + [0] * 11 + [1])]))
+        return "ip:" + hx(rng.choice([bytes([192, 0, 2, 7]), bytes([192, 0, 2, 8]), bytes(16), bytes([192, 0, 2]), b"", bytes([0x20, 1, 0xd, 0xb8] + [0] * 11 + [1]),
+                                      # the other family's look-alikes: an IPv6 term's first four octets as an IPv4 entry, an IPv4 term zero-padded to 16 octets
+                                      bytes([0x20, 1, 0xd, 0xb8]), bytes([192, 0, 2, 7] + [0] * 12), bytes([0] * 12 + [192, 0, 2, 7]),
+                                      bytes([0] * 10 + [255, 255, 192, 0, 2, 7]), bytes([0x20, 1, 0xd, 0xb8] + [0] * 11 + [2])]))
     if k < 0.62:
         return "rid:" + rng.choice(OTHER_OIDS)
     oid = NAI if rng.random() < 0.7 else rng.choice(OTHER_OIDS)
@@ -65,7 +68,7 @@ def rand_term(rng, expect):
     if k == 2:
         return b"SubjectAltName:URI:" + rx
     if k == 3:
-        return b"SubjectAltName:IP:" + rng.choice([b"192.0.2.7", b"192.0.2.8", b"10.0.0.1"])
+        return b"SubjectAltName:IP:" + rng.choice([b"192.0.2.7", b"192.0.2.8", b"10.0.0.1", b"2001:db8::1", b"2001:db8::1", b"::ffff:192.0.2.7", b"::"])
     if k == 4:
         return b"SubjectAltName:rID:" + rng.choice(OTHER_OIDS).encode()
     return b"SubjectAltName:otherName:" + rng.choice([NAI] + OTHER_OIDS).encode() + b":" + rx
